@@ -13,7 +13,7 @@ PROP = "C18"
 
 
 def make_jobs(tier):
-    sizes = [0, 1, 5, 1025, 8193, ref.MIB + 1] if tier != "quick" else [0, 5, 1025, 8193]
+    sizes = [0, 1, 5, 1025, 8193, ref.MIB + 1] if tier != "quick" else [0, 5, 1025, 8193, ref.MIB + 1]
     if tier != "quick":
         sizes.append(3 * ref.MIB + 17)
     return [{"flavour": f, "n": n, "algo": a} for f in ("sync", "astd", "tok") for n in sizes for a in (("sha256", "xxh3") if tier != "quick" else ("sha256",))]
